@@ -340,8 +340,10 @@ def run(run):
         "section/rule/paragraph structure of real parse trees with the model's tree; the tokenizer and the inline handlers are "
         "glue under the diff",
         "model coq/Model/Lists.v (machine shaped like list_fn + pop_until_nth_list) tied to parser.py by comparing the list forest "
-        "of real parse trees with the model's forest for every document whose list lines form one block; the interleaving of "
-        "list blocks with other content is decided by the reference in harness/c02.py",
+        "of real parse trees with the model's forest for every document whose list lines form one block",
+        "model coq/Model/Blocks.v (list machine on top of the section machine, every other block closes the open lists) tied to "
+        "parser.py by comparing the whole real tree of every generated page that has lists with Blocks.parse inside Coq; "
+        "definition lists and text continuing a list item are decided by the reference in harness/c02.py",
     ]
     run.prove()
     rng = run.rng
